@@ -250,3 +250,32 @@ Proof.
   split; [apply denotes_bytes_base64_decodes|]. intros [t [Hj Ht]]. rewrite Hj. cbn [denotes_bytes].
   apply base64_decode_canonical in Ht. rewrite Ht. apply bytes_eqb_refl.
 Qed.
+
+(* ... and for an address leaf under the nil address serializer *)
+From FFS Require Rlp.Model Rlp.Proofs.
+Lemma be_bytes_of_be a : be_bytes (List.length a) (Rlp.Model.of_be a) = a.
+Proof.
+  induction a as [|x l IH] using rev_ind; [reflexivity|].
+  rewrite app_length, Nat.add_comm. cbn [List.length plus be_bytes].
+  rewrite Rlp.Proofs.of_be_app. cbn [List.length]. change (N.of_nat 1) with 1%N. rewrite N.pow_1_r.
+  assert (Hx : Rlp.Model.of_be [x] = b2n x) by (rewrite Rlp.Proofs.of_be_cons; cbn [List.length]; unfold Rlp.Model.of_be; cbn; lia).
+  rewrite Hx. pose proof (b2n_lt x) as Hlt.
+  rewrite (N.add_comm _ (b2n x)), N.div_add, N.mod_add by lia.
+  rewrite N.div_small, N.mod_small by exact Hlt. cbn [N.add]. rewrite IH, n2b_b2n. reflexivity.
+Qed.
+
+Lemma denotes_addr_base64_iff H s z j :
+  ad s = None -> bs s = Base64ByteSerializer ->
+  (denotes_addr H s z j = true <-> exists t a, j = JStr t /\ base64_decode t = Some a /\ is_addr_of z a = true).
+Proof.
+  intros Ha Hb. split; [apply denotes_addr_base64_decodes; assumption|].
+  intros [t [a [Hj [Ht Hz]]]]. rewrite Hj. unfold denotes_addr. rewrite Ha, Hb.
+  apply base64_decode_canonical in Ht. unfold is_addr_of in Hz. apply andb_true_iff in Hz as [Hl Hv].
+  apply Nat.eqb_eq in Hl. apply Z.eqb_eq in Hv.
+  pose proof (Rlp.Proofs.of_be_lt a) as Hlt. rewrite Hl in Hlt. change (256 ^ N.of_nat 20)%N with (2 ^ 160)%N in Hlt.
+  assert (Hz0 : (0 <= z < 2 ^ 160)%Z) by (change (2 ^ 160)%Z with (Z.of_N (2 ^ 160)%N); lia).
+  replace (0 <=? z)%Z with true by (symmetry; apply Z.leb_le; lia).
+  replace (z <? 2 ^ 160)%Z with true by (symmetry; apply Z.ltb_lt; lia). cbn [andb].
+  replace (Z.to_N z) with (Rlp.Model.of_be a) by lia.
+  rewrite <- Hl, be_bytes_of_be, Ht. apply bytes_eqb_refl.
+Qed.
